@@ -122,6 +122,11 @@ def _poly(e):
         if z3.is_int_value(ch[1]) and 0 <= ch[1].as_long() <= 12:
             return p_pow(poly(ch[0]), ch[1].as_long())
         return _atom(e)
+    if k == z3.Z3_OP_ITE and e.sort() != z3.BoolSort():
+        # ite(c, a, b) = b + [c] * (a - b) with the indicator atom [c] = ite(c, 1, 0): masks become multiplicative
+        ind = z3.If(ch[0], z3.RealVal(1), z3.RealVal(0))
+        pa, pb = poly(ch[1]), poly(ch[2])
+        return p_add(pb, p_mul(_atom(ind), p_add(pa, p_scale(pb, -1))))
     if k == z3.Z3_OP_DIV:
         den = poly(ch[1])
         if len(den) == 1 and () in den:
@@ -162,9 +167,47 @@ def _real(e):
     return z3.ToReal(e) if e.sort() == z3.IntSort() else e
 
 
-def rebuild_mono(m):
-    """monomial -> z3 Real term (None for the empty monomial)"""
+_SKEY = {}
+_GEN = {}
+
+
+def structural_key(e):
+    """name-independent ordering key of an atom: its s-expression with every free 0-ary constant replaced by one
+    generic constant per sort (bound index variables, whose names contain '!', keep their names)"""
+    i = e.get_id()
+    if i in _SKEY:
+        return _SKEY[i]
+    subs, seen, stack = [], set(), [e]
+    while stack:
+        x = stack.pop()
+        xi = x.get_id()
+        if xi in seen:
+            continue
+        seen.add(xi)
+        if z3.is_app(x):
+            if x.num_args() == 0:
+                if x.decl().kind() == z3.Z3_OP_UNINTERPRETED:
+                    nm = x.decl().name()
+                    if nm[:2] in ("X!", "K!", "S!"):
+                        continue
+                    sn = x.sort().name()
+                    if sn not in _GEN:
+                        _GEN[sn] = z3.Const(f"?{sn}", x.sort())
+                    subs.append((x, _GEN[sn]))
+            else:
+                stack.extend(x.children())
+    k = (z3.substitute(e, *subs) if subs else e).sexpr()
+    _SKEY[i] = k
+    _KEEP.append(e)
+    return k
+
+
+def rebuild_mono(m, canonical=False):
+    """monomial -> z3 Real term (None for the empty monomial); canonical=True orders the factors by their
+    name-independent structural key (needed when the product is used as an interning key)"""
     t = None
+    if canonical:
+        m = sorted(m, key=lambda ap: (structural_key(ATOMS[ap[0]]), ap[1]))
     for a, p in m:
         x = _real(ATOMS[a])
         if p > 0:
